@@ -980,7 +980,7 @@ def _literal_value(node: ast.AST) -> bool:
         args = [literal_value(arg) for arg in node.args]
         return getattr(node_value, node.func.attr)(*args)
 
-    if isinstance(node, ast.Call):
+    if isinstance(node, ast.Call) and not node.keywords:  # e.g. int("10", base=2) is not int("10")
         if isinstance(node.func, ast.Name) and node.func.id in constants.PURE_BUILTIN_FUNCTIONS:
             args = [literal_value(arg) for arg in node.args]
             return getattr(builtins, node.func.id)(*args)
